@@ -302,14 +302,20 @@ impl Schema {
     }
 
     pub(crate) fn get_interface(&self, interface_id: InterfaceId) -> &StoredInterface {
+        #[cfg(graphql_client_verif)]
+        crate::verif_hooks::yield_point("schema.get_interface");
         self.stored_interfaces.get(interface_id.0).unwrap()
     }
 
     pub(crate) fn get_input(&self, input_id: InputId) -> &StoredInputType {
+        #[cfg(graphql_client_verif)]
+        crate::verif_hooks::yield_point("schema.get_input");
         self.stored_inputs.get(input_id.0 as usize).unwrap()
     }
 
     pub(crate) fn get_object(&self, object_id: ObjectId) -> &StoredObject {
+        #[cfg(graphql_client_verif)]
+        crate::verif_hooks::yield_point("schema.get_object");
         self.stored_objects
             .get(object_id.0 as usize)
             .expect("Schema::get_object")
@@ -322,18 +328,26 @@ impl Schema {
     }
 
     pub(crate) fn get_field(&self, field_id: StoredFieldId) -> &StoredField {
+        #[cfg(graphql_client_verif)]
+        crate::verif_hooks::yield_point("schema.get_field");
         self.stored_fields.get(field_id.0).unwrap()
     }
 
     pub(crate) fn get_enum(&self, enum_id: EnumId) -> &StoredEnum {
+        #[cfg(graphql_client_verif)]
+        crate::verif_hooks::yield_point("schema.get_enum");
         self.stored_enums.get(enum_id.0).unwrap()
     }
 
     pub(crate) fn get_scalar(&self, scalar_id: ScalarId) -> &StoredScalar {
+        #[cfg(graphql_client_verif)]
+        crate::verif_hooks::yield_point("schema.get_scalar");
         self.stored_scalars.get(scalar_id.0).unwrap()
     }
 
     pub(crate) fn get_union(&self, union_id: UnionId) -> &StoredUnion {
+        #[cfg(graphql_client_verif)]
+        crate::verif_hooks::yield_point("schema.get_union");
         self.stored_unions
             .get(union_id.0)
             .expect("Schema::get_union")
@@ -344,10 +358,14 @@ impl Schema {
     }
 
     pub(crate) fn find_type(&self, type_name: &str) -> Option<TypeId> {
+        #[cfg(graphql_client_verif)]
+        crate::verif_hooks::yield_point("schema.find_type");
         self.names.get(type_name).copied()
     }
 
     pub(crate) fn objects(&self) -> impl Iterator<Item = (ObjectId, &StoredObject)> {
+        #[cfg(graphql_client_verif)]
+        crate::verif_hooks::yield_point("schema.objects");
         self.stored_objects
             .iter()
             .enumerate()
@@ -355,6 +373,8 @@ impl Schema {
     }
 
     pub(crate) fn inputs(&self) -> impl Iterator<Item = (InputId, &StoredInputType)> {
+        #[cfg(graphql_client_verif)]
+        crate::verif_hooks::yield_point("schema.inputs");
         self.stored_inputs
             .iter()
             .enumerate()
